@@ -205,7 +205,7 @@ fn expand(files: &[File], mac: &Macro) -> Res<(String, Expr, Vec<TokenTree>)> {
 // following one arm
 
 /// the `Configuration` methods translated through their dispatch macro
-const DISPATCHED: &[&str] = &["get_rx_datarate", "get_rx2_frequency", "get_default_datarate", "has_fixed_channel_plan", "rx1_dr_offset_validate", "get_datarate", "check_tx_power", "is_uplink_datarate"];
+const DISPATCHED: &[&str] = &["get_rx_datarate", "get_rx2_frequency", "get_default_datarate", "has_fixed_channel_plan", "rx1_dr_offset_validate", "get_datarate", "check_tx_power", "is_uplink_datarate", "frequency_valid"];
 /// translated per region by `Gen.RegionStatic` (statics.rs `HANDLER_METHODS`) under `<Region variant>.<method>`
 const STATIC_HANDLER: &[&str] = &["get_rx2_frequency", "rx1_dr_offset_validate", "has_fixed_channel_plan", "get_default_datarate"];
 
@@ -422,11 +422,80 @@ fn plan_method_term(files: &[File], names: &[String], reg: &Registry, w: &Wiring
             }
         }
     }
+    // shape 4: `(self.FIELD)(param)` — the function pointer the plan's `new(p)` stores in FIELD, which `State::new`'s
+    // constructor passes (statics.rs `region_wiring`: `freq_fn`, translated by Gen.RegionStatic as `<Region>.frequency_valid`)
+    if let Expr::Call(c) = e {
+        if let Expr::Field(fe) = strip_paren(&c.func) {
+            if let (Some("self"), Member::Named(field), 1) = (single_ident(&fe.base).as_deref(), &fe.member, c.args.len()) {
+                if !matches!(&*fe.base, Expr::Reference(_)) {
+                    let a = arg_of(&c.args[0])?;
+                    ctor_stores(files, plan, &field.to_string(), &what)?;
+                    return Ok((format!("Gen.RegionStatic.{}.frequency_valid {}", w.variant, a), false));
+                }
+            }
+        }
+    }
     // shape 3: a conjunction of `param CMP P::CONST` and `self.other_method(params…).is_some()`
     if let Some(t) = bool_term(files, names, reg, w, e, &tp, &params, args, &what)? {
         return Ok((t, false));
     }
     Err(format!("{}: body `{}` has a shape the region dispatch does not translate", what, quote::ToTokens::to_token_stream(e)))
+}
+
+/// `plan::new(p)` has one parameter and stores it in `field`; nothing else in the files writes a field of that name
+fn ctor_stores(files: &[File], plan: &str, field: &str, what: &str) -> Res<()> {
+    use syn::visit::Visit;
+    let (f, _) = inherent_fn(files, plan, "new")?;
+    let params = fn_params(&f.sig)?;
+    if params.len() != 1 {
+        return Err(format!("{}: {}::new does not take exactly one argument", what, plan));
+    }
+    struct V<'a> {
+        field: &'a str,
+        lits: Vec<Option<String>>,
+        assigns: usize,
+    }
+    impl<'a, 'ast> Visit<'ast> for V<'a> {
+        fn visit_expr_struct(&mut self, s: &'ast ExprStruct) {
+            for fv in &s.fields {
+                if matches!(&fv.member, Member::Named(n) if n == self.field) {
+                    self.lits.push(if matches!(&fv.expr, Expr::Reference(_)) { None } else { single_ident(&fv.expr) });
+                }
+            }
+            syn::visit::visit_expr_struct(self, s);
+        }
+        fn visit_expr_assign(&mut self, a: &'ast ExprAssign) {
+            if let Expr::Field(fe) = &*a.left {
+                if matches!(&fe.member, Member::Named(n) if n == self.field) {
+                    self.assigns += 1;
+                }
+            }
+            syn::visit::visit_expr_assign(self, a);
+        }
+    }
+    // every struct literal / assignment in the files that mentions a field of this name
+    let mut all = V { field, lits: vec![], assigns: 0 };
+    for fl in files {
+        all.visit_file(fl);
+    }
+    let mut inside = V { field, lits: vec![], assigns: 0 };
+    inside.visit_block(&f.block);
+    // each plan kind has its own `new` with such a literal; none may exist outside a `new`
+    let mut in_news = 0;
+    for pl in ["DynamicChannelPlan", "FixedChannelPlan"] {
+        if let Ok((g, _)) = inherent_fn(files, pl, "new") {
+            let mut v = V { field, lits: vec![], assigns: 0 };
+            v.visit_block(&g.block);
+            in_news += v.lits.len();
+        }
+    }
+    if all.assigns != 0 || all.lits.len() != in_news {
+        return Err(format!("{}: the field `{}` is written outside the plans' `new`", what, field));
+    }
+    if inside.lits.len() != 1 || inside.lits[0].as_deref() != Some(params[0].0.as_str()) {
+        return Err(format!("{}: {}::new does not store its argument in `{}`", what, plan, field));
+    }
+    Ok(())
 }
 
 fn bool_term(files: &[File], names: &[String], reg: &Registry, w: &Wiring, e: &Expr, tp: &str, params: &[(String, Type)], args: &[String], what: &str) -> Res<Option<String>> {
